@@ -509,7 +509,7 @@ def c09_task(task):
                 if len(f) < 6:
                     continue
                 # (e) time constraints give the same result at every depth as at top level under the same configuration
-                if pname in ('check_timestamp', 'check_epoch') and combo and 'loop' not in combo:
+                if pname in ('check_timestamp', 'check_epoch') and combo:
                     key = (pname, repr(sorted(cd.items(), key=repr)))
                     if key not in top_level:
                         top_level[key] = result_keys(tsh.impl_run_script(pb, sf, cfg))
